@@ -31,7 +31,7 @@ func staticBatch(run *report.Run, test string, from, to int, extra []string) ([]
 func RunC17(tier string) int {
 	run := report.New("C17", tier, "exploration",
 		"in-process driver on the exported label API: every string over {a,b,/,:,.,-} up to length L (quick 6, thorough 8) plus random longer strings built from label fragments, each parsed as a label and as a pattern relative to three current packages and matched against a bounded universe (11 packages x 9 names incl. prefix siblings and 'all'); "+
-			"laws judged: parse(print(label)) == label, //a/b == //a/b:b, :x resolves to the current package, documented pattern forms match exactly the reference set (recursive at component boundaries, :all / :... only the package, exact names), parse(print(pattern)) matches the same set; "+
+			"laws judged: parse(print(label)) == label, //a/b == //a/b:b, :x resolves to the current package, documented pattern forms match exactly the reference set (recursive at component boundaries, :all / :... only the package, exact names), parse(print(pattern)) matches the same set; documented label forms (//pkg, //pkg:name) over package paths up to 4 components incl. repeated and prefix/suffix-related components, and the shorthand law CanBeShortened(l) <=> l.Name is the last component of l.Package (and then //pkg parses to l); "+
 			"strings outside the documented forms are only checked for crashes and round trips; non-trivial = string that parses as a pattern in a documented form")
 	L := tierN(tier, 6, 8)
 	outs, err := staticBatch(run, "TestLabels", 0, 1, []string{"-vlen", strconv.Itoa(L), "-vrand", strconv.Itoa(tierN(tier, 20000, 1000000))})
@@ -50,6 +50,7 @@ func RunC17(tier string) int {
 			PatternsParsed int               `json:"patterns_parsed"`
 			Documented     int               `json:"patterns_in_documented_form"`
 			MatchChecks    int               `json:"match_checks"`
+			ShorthandLaws  int               `json:"shorthand_law_checks"`
 			Violations     map[string]int    `json:"violations"`
 			Leads          map[string]int    `json:"leads"`
 			Examples       map[string]string `json:"examples"`
@@ -63,6 +64,7 @@ func RunC17(tier string) int {
 		run.Count("parsed_as_label", r.LabelsParsed)
 		run.Count("parsed_as_pattern", r.PatternsParsed)
 		run.Count("pattern_label_match_checks", r.MatchChecks)
+		run.Count("shorthand_law_checks", r.ShorthandLaws)
 		for i := 0; i < r.Documented && i < 1000000; i += max(1, r.Documented/50) {
 			run.Nontrivial(fmt.Sprintf("documented-pattern-bucket-%d", i))
 		}
